@@ -277,6 +277,8 @@ def _equality_cycle(stm) -> bool:
     if stm.ast_type not in (ASTType.Rule, ASTType.Minimize):
         return False
     graph = nx.DiGraph()
+    same = nx.Graph()  # V1 = V2 makes the two variables one
+    eqs = []
     for lit in stm.body:
         if lit.ast_type != ASTType.Literal or lit.atom.ast_type != ASTType.Comparison or len(lit.atom.guards) != 1:
             continue
@@ -284,12 +286,20 @@ def _equality_cycle(stm) -> bool:
         if not ((lit.sign == Sign.NoSign and guard.comparison == ComparisonOperator.Equal)
                 or (lit.sign == Sign.Negation and guard.comparison == ComparisonOperator.NotEqual)):
             continue
-        for var, term in ((lit.atom.term, guard.term), (guard.term, lit.atom.term)):
+        if lit.atom.term.ast_type == ASTType.Variable and guard.term.ast_type == ASTType.Variable:
+            same.add_edge(lit.atom.term.name, guard.term.name)
+            continue
+        eqs.append((lit.atom.term, guard.term))
+    rep = {}
+    for comp in nx.connected_components(same):
+        first = sorted(comp)[0]
+        for name in comp:
+            rep[name] = first
+    for lhs, rhs in eqs:
+        for var, term in ((lhs, rhs), (rhs, lhs)):
             if var.ast_type == ASTType.Variable and var.name != "_":
-                if term.ast_type == ASTType.Variable:
-                    continue  # plain renaming
                 for other in variables(term):
-                    graph.add_edge(var.name, other)
+                    graph.add_edge(rep.get(var.name, var.name), rep.get(other, other))
     try:
         nx.find_cycle(graph)
         return True
@@ -456,11 +466,11 @@ def order_predicate_other_arity(job: dict, cres: dict, v: dict) -> bool:
     if not m:
         return False
     clash = set(eval(m.group(1)))  # pylint: disable=eval-used
-    return bool(clash) and all(re.match(r"__(chain|min|max|next)_", n) for n, _ in clash)
+    return bool(clash) and all(re.match(r"__(chain|min|max|next)_[0-9_]*(?:_?(?:max|min)_)?__dom_", n) for n, _ in clash)
 
 
 @matcher("source_defines_order_predicate_name")
 def source_defines_order_predicate_name(job: dict, cres: dict, v: dict) -> bool:
     """the source itself defines a predicate with one of the generated __chain/__min/__max/__next names with an arity
     that differs from the one the name generator reserved (the arity of the domain predicate +1/+2)"""
-    return bool(re.search(r"(?m)^__(chain|min|max|next)_[A-Za-z0-9_]*\(", job["prog"]))
+    return bool(re.search(r"(?m)^__(chain|min|max|next)_[0-9_]*(?:_?(?:max|min)_)?__dom_[A-Za-z0-9_]*\(", job["prog"]))
